@@ -25,6 +25,30 @@ M = [
   """            retval[allowedActions_[i]] = lri_.getActionProbability(i);""", """            retval[i] = lri_.getActionProbability(i);"""),
  ('M8 Bandit::EpsilonPolicy random probability 1/(A+1)', 'src/Bandit/Policies/EpsilonPolicy.cpp',
   """        return 1.0 / A;""", """        return 1.0 / (A + 1);"""),
+ # ---- round 2
+ ('N1 ESRLPolicy::getActionProbability bisects the swap-and-pop\'ed list (seeded/C09-1)', 'src/Bandit/Policies/ESRLPolicy.cpp',
+  """        const auto it = std::find(std::begin(allowedActions_), std::end(allowedActions_), a);
+        if (it == std::end(allowedActions_))
+            return 0.0;
+
+        return lri_""", """        const auto it = std::lower_bound(std::begin(allowedActions_), std::end(allowedActions_), a);
+        if (it == std::end(allowedActions_) || *it != a)
+            return 0.0;
+
+        return lri_"""),
+ ('N2 T3CPolicy: the leader is not skipped in the challenger loop', 'src/Bandit/Policies/T3CPolicy.cpp',
+  """            if (a == bestAction) continue;""", """"""),
+ ('N3 SuccessiveRejectsPolicy: on ties the LAST worst arm is rejected', 'src/Bandit/Policies/SuccessiveRejectsPolicy.cpp',
+  """            if (v < minValue) {""", """            if (v <= minValue) {"""),
+ ('N4 LLRPolicy: exploration bonus uses L instead of L+1', 'src/Factored/Bandit/Policies/LLRPolicy.cpp',
+  """        const auto LtLog = (L+1) * std::log(exp_.getTimesteps());""", """        const auto LtLog = L * 0.05 * std::log(exp_.getTimesteps());"""),
+ ('N5 TopTwoThompsonSamplingPolicy: single second draw, no rejection loop', 'src/Bandit/Policies/TopTwoThompsonSamplingPolicy.cpp',
+  """        do {
+            secondBestAction = policy_.sampleAction();
+        } while (bestAction == secondBestAction);""", """        secondBestAction = policy_.sampleAction();"""),
+ ('N6 Factored ThompsonSamplingPolicy: posterior draw subtracts instead of adds the noise for even entries', 'src/Factored/Bandit/Policies/ThompsonSamplingPolicy.cpp',
+  """                    val = basis.values[y] + dist(rnd) * std::sqrt(m2[y]/(counts[y] * (counts[y] - 1)));""",
+  """                    val = basis.values[y] + (y % 2 ? 1.0 : -3.0) * dist(rnd) * std::sqrt(m2[y]/(counts[y] * (counts[y] - 1)));"""),
 ]
 sel = sys.argv[1:]
 for name, rel, old, new in M:
